@@ -39,6 +39,10 @@ type connIDManager struct {
 	removeStatelessResetToken func(protocol.StatelessResetToken)
 	queueControlFrame         func(wire.Frame)
 
+	// [UQUIC] active_connection_id_limit advertised in our transport parameters.
+	// 0 means protocol.MaxActiveConnectionIDs (what a connection without a spec advertises).
+	connIDLimit uint64
+
 	closed bool
 }
 
@@ -65,7 +69,11 @@ func (h *connIDManager) Add(f *wire.NewConnectionIDFrame) error {
 	if err := h.add(f); err != nil {
 		return err
 	}
-	if len(h.queue) >= protocol.MaxActiveConnectionIDs {
+	limit := uint64(protocol.MaxActiveConnectionIDs)
+	if h.connIDLimit != 0 {
+		limit = h.connIDLimit
+	}
+	if uint64(len(h.queue)) >= limit {
 		return &qerr.TransportError{ErrorCode: qerr.ConnectionIDLimitError}
 	}
 	return nil
